@@ -41,8 +41,11 @@ def sh(cmd, timeout=None, env=None, cwd=None, check=False, stdin=None):
 
 VARIANTS = {
     "hook": dict(cc="gcc", flags="-O1 -g -DORC_VERIF_HOOKS"),
-    "asan": dict(cc="gcc", flags="-O1 -g -DORC_VERIF_HOOKS -fsanitize=address,undefined "
-                                  "-fno-sanitize-recover=undefined -fno-omit-frame-pointer"),
+    # memory-safety observers only: signed shifts/overflows in the instruction encoders are
+    # not what any property is about (and are relied upon everywhere in the code base)
+    "asan": dict(cc="gcc", flags="-O1 -g -DORC_VERIF_HOOKS -fsanitize=address,bounds,null,object-size,"
+                                  "pointer-overflow,return,unreachable,vla-bound -fno-sanitize-recover=all "
+                                  "-fno-omit-frame-pointer"),
     "tsan": dict(cc="clang", flags="-O1 -g -DORC_VERIF_HOOKS -fsanitize=thread"),
     "plain": dict(cc="gcc", flags="-O2 -g"),
 }
